@@ -144,7 +144,7 @@ class CHECK(core.Check):
                 elif r < 0.70: ops.append(["popitem"])
                 elif r < 0.73: ops.append(["setdefault", k, v])
                 elif r < 0.74: ops.append(["clear"])
-                elif r < 0.79: ops.append(["push", v if (push_none or v is not None) else 0])
+                elif r < 0.79: ops.append(["push", None if (push_none and rng.random() < 0.4) else (0 if v is None else v)])
                 elif r < 0.82: ops.append(["pull"])
                 elif r < 0.87: ops.append(["gulp", v])
                 elif r < 0.92: ops.append(["spew"])
@@ -320,23 +320,36 @@ class CHECK(core.Check):
 
     # ---- the property, stated on the implementation's outputs
     def oracle(self, case, out):
+        return self._oracle2(case, out)[1]
+
+    def _oracle2(self, case, out):
+        """(kind, message): kind None = holds; "other" = a failure that is not of the two recorded kinds
+        (returned as soon as it is met); "known" = only failures of the recorded kinds D11 (a class
+        attribute name of Data treated as a field) / D11e (spew hands back a None that was pushed) were met.
+        After a failure of a recorded kind the reference carries on, so that anything else in the same
+        history is still found."""
         ops = case["ops"]
         if len(out) != len(ops):
-            return "harness: %d ops, %d outputs: %s" % (len(ops), len(out), out[:1])
+            return "other", "harness: %d ops, %d outputs: %s" % (len(ops), len(out), out[:1])
         F = collections.OrderedDict()      # fields
         stamp = None
         clocks = [None, None]
         att = None
         deck = collections.deque()
         venc = self._venc
+        known = []
+        d11 = False                         # a class-attribute name was accepted: len() is no longer pinned
 
         def now():
             return None if att is None else clocks[att]
 
+        def is_ca(kk):
+            return kk in CLASS_ATTRS or kk == "__dict__"
+
         for i, (op, line) in enumerate(zip(ops, out)):
             parts = line.split(" | ")
             if len(parts) != 6:
-                return "op %d %s: %s" % (i, op, line)
+                return "other", "op %d %s: %s" % (i, op, line)
             res, o_stamp, o_keys, o_items, o_deck, o_len = parts
             where = "op %d %s -> %s: " % (i, op[:3], res)
             k = op[0]
@@ -345,7 +358,7 @@ class CHECK(core.Check):
             resync = False
             if k == "setValue":
                 if err:
-                    return where + "assigning the value raised"
+                    return "other", where + "assigning the value raised"
                 F["value"] = op[1]; stamp = now(); expect_res = "unit"
             elif k == "getValue":
                 expect_res = "v:" + venc(F.get("value"))
@@ -353,17 +366,18 @@ class CHECK(core.Check):
                 ps = eff_pairs(op)
                 bad = [kk for kk, _ in ps if not is_public(kk)]
                 if k == "create":
-                    # only keys that are not fields yet are looked at by the name rule
                     bad = [kk for kk in bad if kk not in F]
                 if bad:
-                    if not err:
-                        if k == "create" and all(not is_public(kk) for kk in bad) and o_keys == self._keys(F):
-                            pass      # create may skip a name it considers present; nothing became a field
+                    if not err and k != "create":
+                        msg = where + "field name %r is not a public identifier but was accepted" % (bad[0],)
+                        if all(is_ca(kk) for kk in bad):
+                            known.append(msg); d11 = True
                         else:
-                            return where + "field name %r is not a public identifier but was accepted" % (bad[0],)
+                            return "other", msg
+                    # create may silently skip a name it considers present; what matters is what became a field
                     resync = True
                 elif err:
-                    return where + "raised although every field name is a public identifier"
+                    return "other", where + "raised although every field name is a public identifier"
                 else:
                     expect_res = "unit"
                     if k == "create":
@@ -384,9 +398,13 @@ class CHECK(core.Check):
                 kk = op[1]
                 if not is_public(kk) and kk not in F:
                     if not err:
-                        return where + "field name %r is not a public identifier but was accepted" % (kk,)
+                        msg = where + "field name %r is not a public identifier but was accepted" % (kk,)
+                        if is_ca(kk):
+                            known.append(msg); d11 = True
+                        else:
+                            return "other", msg
                 elif err:
-                    return where + "raised for a public field name"
+                    return "other", where + "raised for a public field name"
                 elif k == "setItem":
                     F[kk] = op[2]; expect_res = "unit"
                 else:
@@ -395,25 +413,36 @@ class CHECK(core.Check):
                 kk = op[1]
                 if kk in F:
                     expect_res = "v:" + venc(F[kk])
+                elif is_ca(kk):
+                    if res != ("v:n" if k == "get" else "ERR KeyError"):
+                        known.append(where + "%r is not a field but reading it gave something" % (kk,))
                 elif k == "get":
                     expect_res = "v:n"
                 elif res != "ERR KeyError":
-                    return where + "%r is not a field but reading it did not raise KeyError" % (kk,)
+                    return "other", where + "%r is not a field but reading it did not raise KeyError" % (kk,)
             elif k == "contains":
-                expect_res = "b:" + str(op[1] in F)
+                if is_ca(op[1]) and op[1] not in F:
+                    if res != "b:False":
+                        known.append(where + "%r is not a field but is reported as contained" % (op[1],))
+                else:
+                    expect_res = "b:" + str(op[1] in F)
             elif k in ("delItem", "pop"):
                 kk = op[1]
                 if kk in F:
                     v = F.pop(kk); expect_res = "unit" if k == "delItem" else "v:" + venc(v)
                 elif not err:
-                    return where + "%r is not a field but removing it did not raise" % (kk,)
+                    msg = where + "%r is not a field but removing it did not raise" % (kk,)
+                    if is_ca(kk):
+                        known.append(msg)
+                    else:
+                        return "other", msg
             elif k == "popitem":
                 if F:
                     kk, v = F.popitem(last=True); expect_res = "p:%s=%s" % (hx(kk), venc(v))
                 elif res != "ERR KeyError":
-                    return where + "popitem on an empty share did not raise KeyError"
+                    return "other", where + "popitem on an empty share did not raise KeyError"
             elif k == "clear":
-                F.clear(); expect_res = "unit"
+                F.clear(); expect_res = "unit"; d11 = False
             elif k == "keys":
                 expect_res = "k:" + self._keys(F)
             elif k == "items":
@@ -421,7 +450,8 @@ class CHECK(core.Check):
             elif k == "values":
                 expect_res = "l:" + (",".join(venc(v) for v in F.values()) if F else ".")
             elif k == "len":
-                expect_res = "n:%d" % len(F)
+                if not d11:
+                    expect_res = "n:%d" % len(F)
             elif k == "push":
                 deck.append(op[1]); expect_res = "unit"
             elif k == "gulp":
@@ -432,12 +462,16 @@ class CHECK(core.Check):
                 if deck:
                     expect_res = "v:" + venc(deck.popleft())
                 elif res != "ERR IndexError":
-                    return where + "pull on an empty deck did not raise IndexError"
+                    return "other", where + "pull on an empty deck did not raise IndexError"
             elif k == "spew":
                 if deck:
                     v = deck.popleft()
                     if res == "v:n":
-                        return where + "spew returned None although the deck was not empty"
+                        msg = where + "spew returned None although the deck was not empty"
+                        if v is None:
+                            known.append(msg)        # the None that was pushed comes back
+                        else:
+                            return "other", msg
                     expect_res = "v:" + venc(v)
                 else:
                     expect_res = "v:n"
@@ -446,35 +480,39 @@ class CHECK(core.Check):
             elif k == "attach":
                 att = None if op[1] is None else (0 if op[1] == 0 else 1); expect_res = "unit"
             if expect_res is not None and res != expect_res:
-                return where + "expected %s" % expect_res
+                return "other", where + "expected %s" % expect_res
             # observations
             if resync:
-                # a rejected multi-field call: whatever it left behind must still be well formed
+                # a call that met a non-public name: whatever it left behind must still be well formed
                 if o_items.startswith("ERR") or o_keys.startswith("ERR"):
-                    return where + "items()/keys() raise after the rejected call"
+                    return "other", where + "items()/keys() raise after the call"
                 newF = collections.OrderedDict()
                 for ent in ([] if o_items == "." else o_items.split(";")):
                     hk, _, hv = ent.partition("=")
                     kk = "" if hk == "-" else bytes.fromhex(hk).decode()
                     if not is_public(kk):
-                        return where + "field %r is not a public identifier" % (kk,)
+                        return "other", where + "field %r is not a public identifier" % (kk,)
+                    if kk in F and F[kk] != self._vdec(hv) and k == "create":
+                        return "other", where + "create overwrote the existing field %r" % (kk,)
                     newF[kk] = self._vdec(hv)
                 F = newF
                 if o_stamp not in ("n" if stamp is None else "%d" % stamp, "n" if now() is None else "%d" % now()):
-                    return where + "stamp %s is neither the old stamp nor the store's time" % o_stamp
+                    return "other", where + "stamp %s is neither the old stamp nor the store's time" % o_stamp
                 stamp = None if o_stamp == "n" else int(o_stamp)
             want_stamp = "n" if stamp is None else "%d" % stamp
             if o_stamp != want_stamp:
-                return where + "stamp is %s, the rules give %s" % (o_stamp, want_stamp)
+                return "other", where + "stamp is %s, the rules give %s" % (o_stamp, want_stamp)
             if o_keys != self._keys(F) or o_items != self._penc(list(F.items())):
-                return where + "fields are %s / %s, an insertion-ordered mapping gives %s" % (
+                return "other", where + "fields are %s / %s, an insertion-ordered mapping gives %s" % (
                     o_keys, o_items, self._penc(list(F.items())))
-            if o_len != "%d" % len(F):
-                return where + "len() is %s with %d fields" % (o_len, len(F))
+            if not d11 and o_len != "%d" % len(F):
+                return "other", where + "len() is %s with %d fields" % (o_len, len(F))
             want_deck = ",".join(venc(v) for v in deck) if deck else "."
             if o_deck != want_deck:
-                return where + "deck is %s, FIFO gives %s" % (o_deck, want_deck)
-        return None
+                return "other", where + "deck is %s, FIFO gives %s" % (o_deck, want_deck)
+        if known:
+            return "known", known[0]
+        return None, None
 
     def _keys(self, F):
         return ",".join(hx(k) for k in F) if F else "."
@@ -490,8 +528,13 @@ class CHECK(core.Check):
 
     # ---- known findings: the region predicates are the Lean definitions, evaluated by the driver
     def region(self, finding, case):
-        reqs = self.requests(case) + ["region " + finding["id"]]
-        return core.Driver(self.ENGINE).run(reqs)[-1] == "true"
+        key = core.case_key(case)
+        cache = self.__dict__.setdefault("_region_cache", {})
+        if key not in cache:
+            reqs = self.requests(case) + ["region D11", "region D11e"]
+            rep = core.Driver(self.ENGINE).run(reqs)
+            cache[key] = {"D11": rep[-2] == "true", "D11e": rep[-1] == "true"}
+        return cache[key].get(finding["id"], False)
 
     # ---- statistics
     def nontrivial(self, case, out):
@@ -520,7 +563,7 @@ class CHECK(core.Check):
         n = len(ops)
         return "ops%s %s%s" % ("1-6" if n <= 6 else "7-25" if n <= 25 else "26+", kind, " pushNone" if pn else "")
 
-    def shrink_candidates(self, case):
+    def _cands(self, case):
         ops = case["ops"]
         for i in range(len(ops)):
             yield {"ops": ops[:i] + ops[i + 1:]}
@@ -528,3 +571,17 @@ class CHECK(core.Check):
             if op[0] in ("update", "change", "create") and len(op[1]) > 1:
                 for j in range(len(op[1])):
                     yield {"ops": ops[:i] + [[op[0], op[1][:j] + op[1][j + 1:], op[2]]] + ops[i + 1:]}
+
+    def shrink_candidates(self, case):
+        """a failure that is not of a recorded kind must stay one while shrinking; a failure of a recorded
+        kind that is reported because the implementation no longer behaves as recorded (model != implementation)
+        must keep disagreeing (otherwise the shrunk case could be nothing but the known finding)"""
+        kind = self._oracle2(case, self.safe_impl(case))[0]
+        for cand in self._cands(case):
+            io = self.safe_impl(cand)
+            k2 = self._oracle2(cand, io)[0]
+            if kind == "other" and k2 != "other":
+                continue
+            if kind == "known" and (k2 is None or self.model([cand])[0] == io):
+                continue
+            yield cand
